@@ -139,6 +139,8 @@ impl<Key, Value> Store<Key, Value>
     /// in between, the key may have been deleted and put again (with a new `key_id`).
     /// The newer value must not be removed on behalf of the older `key_id`.
     pub(crate) fn delete_if_key_id_matches(&self, key: &Key, key_id: &KeyId) {
+        #[cfg(feature = "cached_verif")]
+        crate::cache::verif::point("store.remove");
         if self.store.remove_if(key, |_, stored_value| stored_value.key_id() == *key_id).is_some() {
             self.stats_counter.delete_key();
         }
